@@ -20,7 +20,7 @@ for _n, _d in {
     "int": "1", "float": "1.5", "str": "'s'", "bytes": "b'x'", "complex": "1j", "bool": "True", "none": "None", "name": "CONST", "attribute": "math.pi", "call": "int()",
     "neg": "-1", "pos": "+1", "not": "not 1", "invert": "~1", "binop": "1 + 2", "list": "[1, 2]", "dict": "{'a': 1}", "set": "{1, 2}", "tuple": "(1, 2)", "empty-tuple": "()",
     "lambda": "lambda x: x", "fstring": "f'{CONST}'", "ellipsis": "...", "conditional": "1 if CONST else 2", "comparison": "1 < 2", "index": "LIST[0]", "neg-name": "-CONST",
-    "neg-float": "-1.5", "double-neg": "--1", "str-concat": "'a' 'b'", "big-int": "10**30", "inf": "1e999", "slice-call": "slice(1)", "star-expr": "[*LIST]", "walrus": "(y := 1)", "await-like": "type(1)",
+    "neg-float": "-1.5", "double-neg": "--1", "str-concat": "'a' 'b'", "big-int": "10**30", "inf": "1e999", "slice-call": "slice(1)", "neg-binop": "-(1 + 2)", "invert-binop": "~(1 | 2)", "not-call": "not int()", "surrogate-str": "'\\ud800'", "nul-str": "'a\\x00b'", "newline-str": "'a\\nb'", "star-expr": "[*LIST]", "walrus": "(y := 1)", "await-like": "type(1)",
 }.items():  # fmt: skip
     form(f"default:{_n}:untyped", f"import math\n\nCONST = 3\nLIST = [1]\n\n\ndef f@(a={_d}):\n    return None\n")
     form(f"default:{_n}:typed", f"import math\nfrom typing import Any\n\nCONST = 3\nLIST = [1]\n\n\ndef f@(a: Any = {_d}) -> None:\n    return None\n")
@@ -79,6 +79,9 @@ form("class:namedtuple", "from typing import NamedTuple\n\n\nclass C@(NamedTuple
 form("class:typeddict", "from typing import TypedDict\n\n\nclass C@(TypedDict):\n    a: int\n\n\nclass D@(TypedDict, total=False):\n    b: str\n")
 form("class:exception", "class C@(Exception):\n    def __init__(self, a: int) -> None:\n        self.a = a\n\n\nclass D@(C@):\n    pass\n")
 form("class:subscripted-base", "class C@(list[int]):\n    pass\n\n\nclass D@(dict[str, int]):\n    pass\n")
+for _b in ("Sequence[int]", "Sequence[list[int]]", "Collection[str]", "Mapping[str, int]", "Iterable[int]", "Sequence[T]", "Collection[T]", "Generic[T], Sequence[T]"):
+    form(f"class:typing-base:{_b}", "from typing import Collection, Generic, Iterable, Mapping, Sequence, TypeVar\n\nT = TypeVar('T')\n\n\n" + f"class C@({_b}):  # type: ignore[misc]\n    pass\n")
+form("class:user-class-named-like-builtin-generic", "class Mapping:\n    pass\n\n\nclass Sequence:\n    pass\n\n\nclass dict@:\n    pass\n\n\ndef f@(a: Mapping, b: Sequence, c: dict@) -> None:\n    ...\n")
 form("class:metaclass", "class M@(type):\n    pass\n\n\nclass C@(metaclass=M@):\n    pass\n")
 form("class:dataclass", "from dataclasses import dataclass, field\n\n\n@dataclass\nclass C@:\n    a: int\n    b: list[int] = field(default_factory=list)\n    c: str = 'x'\n")
 form("class:dataclass-frozen-slots", "from dataclasses import dataclass\n\n\n@dataclass(frozen=True, slots=True)\nclass C@:\n    a: int = 1\n")
@@ -151,6 +154,9 @@ form("module:decls-in-init", {"di@/__init__.py": "from .m import K@\n\n\nclass I
 form("module:reexport-everything", {"re@/__init__.py": "from ._a import *\nfrom ._a import A@ as Alias@\nfrom . import _a as pub_a\nfrom ._a import _priv@ as made_public@\nimport vpkg.re@._a as dotted\n", "re@/_a.py": "class A@:\n    pass\n\n\ndef _priv@() -> A@:\n    ...\n\n\ndef pub@(a: A@) -> None:\n    ...\n"})
 form("module:type-alias-and-typing-constructs", "from typing import TypeAlias, Union\n\nVector@: TypeAlias = list[float]\nMaybe@ = Union[int, None]\n\n\ndef f@(a: Vector@, b: Maybe@) -> Vector@:\n    return a\n")
 form("module:global-statements", "import sys\n\nif sys.platform == 'linux':\n    X@ = 1\nfor _i in range(2):\n    pass\nwhile False:\n    pass\nwith open(__file__) as _f:\n    pass\ntry:\n    Y@ = 1\nexcept Exception:\n    Y@ = 2\nassert True\ndel _i\n\n\ndef f@() -> int:\n    global X@\n    return 1\n")
+form("module:named-like-its-package", {"same@/__init__.py": "", "same@/same@.py": "def bar@(a: int) -> int:\n    \"\"\"Doc.\"\"\"\n    return a\n"})
+form("module:function-named-like-module", {"fn@.py": "def fn@(a: int) -> int:\n    \"\"\"Doc.\"\"\"\n    return a\n"})
+form("class:nested-class-named-like-outer", "class A@:\n    \"\"\"Outer.\"\"\"\n\n    class A@:\n        \"\"\"Inner.\"\"\"\n\n        def m(self, a: int) -> int:\n            \"\"\"Doc.\"\"\"\n            return a\n")
 form("module:non-ascii", "def grüße@(wert: int = 1) -> int:\n    '''Grüße – naïve café.'''\n    return wert\n\n\nclass Größe@:\n    π: float = 3.14\n")
 
 
